@@ -103,8 +103,75 @@ def check_state(desc, sc, pats, flagsets, res, bash=True, names_tag='std'):
                     res.outcomes.add('bash-agrees')
 
 
+ODD_TREE = ['a\\', 'b', 'd\\/', 'd\\/x', '*', '[', 'a]', '!(', '{a,b}', 'a|b', '~', '-a', 'sp ace', 'e/', 'e/a\\', 'e/*', '.h\\']
+ODD_PATS = ['*', '?*', '**', '[!a]*', '*/', '*/*', '**/*', '??', '*\\\\', 'e/*']
+ODD_FLAGS = ['GE', 'GEO', 'GDE', 'GDEO', 'GEK', 'E', 'GEOK']
+
+
+def check_odd(res):
+    """A fixed tree whose names contain metacharacters and backslashes: wildcard patterns against the reference walker."""
+    sc = fsx.Scratch()
+    try:
+        state = fsx.from_desc(ODD_TREE)
+        sc.load(state)
+        model = fsx.Model(state)
+        for fs in ODD_FLAGS:
+            fl = refglob.Flags(fs)
+            for text in ODD_PATS:
+                from .. import pat as _pat
+                ast = tuple(_parse_simple(text))
+                res.n['evaluations'] += 1
+                res.n['distinct_nontrivial'] += 1
+                got, _n = real_glob(text, fs, sc.root)
+                ref = refglob.ref_glob(model, ast, fl)
+                gotn = sorted(set(refglob.norm(x) for x in got))
+                must = sorted(set(refglob.norm(p) for p, st in ref.items() if st == 'must'))
+                allowed = set(refglob.norm(p) for p in ref)
+                missing = [p for p in must if p not in gotn]
+                extra = [p for p in gotn if p not in allowed]
+                res.outcomes.add('odd-agrees' if not (missing or extra) else 'odd-differs')
+                if missing or extra:
+                    v = run.viol('glob-vs-reference', {'tree': ODD_TREE, 'pattern': text, 'flags': fs},
+                                 {'must': must, 'may': sorted(allowed - set(must))}, {'result': gotn, 'missing': missing, 'extra': extra})
+                    v['ast'] = repr(ast)
+                    res.add_violation(ID, v)
+        res.samples.append({'tree': ODD_TREE, 'pattern': '*', 'flags': 'GEO'})
+    finally:
+        sc.close()
+
+
+def _parse_simple(text):
+    """Tokenise the wildcard-only ODD_PATS (no groups, brackets only [!a])."""
+    from .. import pat as _pat
+    i = 0
+    while i < len(text):
+        c = text[i]
+        if c == '*':
+            j = i
+            while j < len(text) and text[j] == '*':
+                j += 1
+            yield ('star', j - i)
+            i = j
+        elif c == '?':
+            yield _pat.Q
+            i += 1
+        elif c == '/':
+            yield ('sep', 1, False)
+            i += 1
+        elif c == '[':
+            j = text.index(']', i)
+            yield _pat.br(text[i:j + 1])
+            i = j + 1
+        elif c == '\\':
+            yield _pat.lit(text[i + 1], True)
+            i += 2
+        else:
+            yield _pat.lit(c)
+            i += 1
+
+
 def plan(tier, seed):
-    chunks = []
+    chunks = [('odd', [])]
     st_chunks, cov = fscommon.state_chunks(tier, seed, extra_roots=fscommon.SEED_STATES)
     for c in st_chunks:
         chunks.append(('std', c))
@@ -151,6 +218,9 @@ def case_patterns():
 def run_chunk(chunk):
     kind, descs = chunk
     res = run.ChunkResult()
+    if kind == 'odd':
+        check_odd(res)
+        return res
     sc = fsx.Scratch()
     try:
         if kind == 'std':
